@@ -689,6 +689,86 @@ where
     }
 }
 
+/// Read-only dump of everything the storage keeps, for verification
+#[cfg(aquatic_verif)]
+pub mod verif {
+    use super::*;
+
+    #[derive(Clone, Debug, PartialEq, Eq, PartialOrd, Ord, Hash)]
+    pub struct ExpectingDump {
+        pub from_peer_id: [u8; 20],
+        pub offer_id: [u8; 20],
+        pub valid_until: u32,
+    }
+
+    #[derive(Clone, Debug, PartialEq, Eq, PartialOrd, Ord, Hash)]
+    pub struct PeerDump {
+        pub peer_id: [u8; 20],
+        pub consumer_id: u8,
+        pub connection_id: u64,
+        pub seeder: bool,
+        pub valid_until: u32,
+        /// In storage order
+        pub expecting_answers: Vec<ExpectingDump>,
+    }
+
+    #[derive(Clone, Debug, PartialEq, Eq, PartialOrd, Ord, Hash)]
+    pub struct TorrentDump {
+        pub info_hash: [u8; 20],
+        pub num_seeders: usize,
+        /// In storage order
+        pub peers: Vec<PeerDump>,
+    }
+
+    /// Torrents in storage order
+    #[derive(Clone, Debug, Default, PartialEq, Eq, Hash)]
+    pub struct Dump {
+        pub ipv4: Vec<TorrentDump>,
+        pub ipv6: Vec<TorrentDump>,
+    }
+
+    fn dump_map(map: &TorrentMap) -> Vec<TorrentDump> {
+        use slotmap::Key;
+
+        map.torrents
+            .iter()
+            .map(|(info_hash, data)| TorrentDump {
+                info_hash: info_hash.0,
+                num_seeders: data.num_seeders,
+                peers: data
+                    .peers
+                    .iter()
+                    .map(|(peer_id, p)| PeerDump {
+                        peer_id: peer_id.0,
+                        consumer_id: p.consumer_id.0,
+                        connection_id: p.connection_id.data().as_ffi(),
+                        seeder: p.seeder,
+                        valid_until: p.valid_until.verif_get(),
+                        expecting_answers: p
+                            .expecting_answers
+                            .iter()
+                            .map(|(e, v)| ExpectingDump {
+                                from_peer_id: e.from_peer_id.0,
+                                offer_id: e.regarding_offer_id.0,
+                                valid_until: v.verif_get(),
+                            })
+                            .collect(),
+                    })
+                    .collect(),
+            })
+            .collect()
+    }
+
+    impl TorrentMaps {
+        pub fn verif_dump(&self) -> Dump {
+            Dump {
+                ipv4: dump_map(&self.ipv4),
+                ipv6: dump_map(&self.ipv6),
+            }
+        }
+    }
+}
+
 #[cfg(test)]
 mod tests {
     use hashbrown::HashSet;
